@@ -7,6 +7,7 @@ package verifrt
 
 import (
 	"bytes"
+	"reflect"
 	"runtime"
 	"sync/atomic"
 	"time"
@@ -164,6 +165,12 @@ func Yield(site int) {
 			Preemptions.Add(1)
 			runtime.Gosched()
 		}
+		return
+	}
+	if foreign > 0 {
+		// a finalizer of the code under test, run by the runtime's own goroutine: it
+		// is not a task and must not touch the scheduler (it counts on the driver's meter)
+		meters[0]++
 		return
 	}
 	i := meterIdx()
@@ -599,3 +606,36 @@ func CurTask() int {
 //
 //go:norace
 func ForceMain() { cur = mainTask }
+
+// ---------------------------------------------------------------------------
+// finalizers of the code under test
+
+var foreign int
+
+//go:norace
+func foreignEnter() { foreign++ }
+
+//go:norace
+func foreignLeave() { foreign-- }
+
+// SetFinalizer replaces runtime.SetFinalizer in the instrumented copy: the
+// finalizer runs on the runtime's finalizer goroutine, which is no task of the
+// baton scheduler; its instrumented statements must not take scheduling
+// decisions on behalf of whichever task holds the baton at that moment.
+func SetFinalizer(obj, fin any) {
+	if fin == nil {
+		runtime.SetFinalizer(obj, nil)
+		return
+	}
+	fv := reflect.ValueOf(fin)
+	if fv.Kind() != reflect.Func {
+		runtime.SetFinalizer(obj, fin) // let the runtime report the misuse
+		return
+	}
+	w := reflect.MakeFunc(fv.Type(), func(args []reflect.Value) []reflect.Value {
+		foreignEnter()
+		defer foreignLeave()
+		return fv.Call(args)
+	})
+	runtime.SetFinalizer(obj, w.Interface())
+}
